@@ -74,6 +74,16 @@ def setLast (mats : List (String × Nat)) (n : Nat) : List (String × Nat) :=
   | none => mats
   | some (m, _) => mats.dropLast ++ [(m, n)]
 
+/-- closing the open range of a group (at `g` and at end of input):
+    `if trisSenseLastMat > 0 && len(meshMats) > 0 { last.PrimitiveCount = trisSenseLastMat }` -/
+def closeMats (mats : List (String × Nat)) (since : Nat) : List (String × Nat) :=
+  if since > 0 ∧ mats ≠ [] then setLast mats since else mats
+
+/-- "the material in effect carries over from the previous group": a group without ranges that gets a
+    face opens a range for the material in effect, if any -/
+def carryMats (mats : List (String × Nat)) (inEffect : Option String) : List (String × Nat) :=
+  if mats = [] then (match inEffect with | some m => [(m, 0)] | none => []) else mats
+
 /-- the `-1` sentinel: `Atoi(s) - 1 == -1` means "absent" -/
 def slot (o : Option Nat) : Option Nat := o.bind fun n => if n = 0 then none else some (n - 1)
 
@@ -118,13 +128,11 @@ def step (s : RState τ α) : Line τ α → Except Err (RState τ α)
     .ok { s with since := 0, inEffect := some name, cur := { s.cur with mats := mats1 ++ [(name, 0)] } }
   | .g name =>                       -- a bare `g` is the default group, name ""
     if s.cur.tris ≠ [] then
-      let mats1 := if s.since > 0 ∧ s.cur.mats ≠ [] then setLast s.cur.mats s.since else s.cur.mats
-      .ok { s with since := 0, done := s.done ++ [{ s.cur with mats := mats1 }], cur := { name := name } }
+      .ok { s with since := 0, done := s.done ++ [{ s.cur with mats := closeMats s.cur.mats s.since }],
+                   cur := { name := name } }
     else .ok { s with cur := { s.cur with name := name } }
   | .f a b c =>
-    -- "the material in effect carries over from the previous group"
-    let mats1 := if s.cur.mats = [] then (match s.inEffect with | some m => [(m, 0)] | none => []) else s.cur.mats
-    let g0 := { s.cur with mats := mats1 }
+    let g0 := { s.cur with mats := carryMats s.cur.mats s.inEffect }
     match addCorner pc s g0 a with
     | .error e => .error e
     | .ok (p1, g1) =>
@@ -145,8 +153,7 @@ def steps (s : RState τ α) : List (Line τ α) → Except Err (RState τ α)
 
 /-- end of input: the working group is always appended (even if empty); its open range is closed -/
 def finish (s : RState τ α) : List (Group τ α) × List String :=
-  let mats1 := if s.since > 0 ∧ s.cur.mats ≠ [] then setLast s.cur.mats s.since else s.cur.mats
-  (s.done ++ [{ s.cur with mats := mats1 }], s.libs)
+  (s.done ++ [{ s.cur with mats := closeMats s.cur.mats s.since }], s.libs)
 
 /-- `obj.ReadMesh` on lexed lines -/
 def readObj (ls : List (Line τ α)) : Except Err (List (Group τ α) × List String) :=
@@ -170,7 +177,7 @@ deriving DecidableEq, Repr
 /-- `strings.Replace(mat.Name, " ", "", -1)`, `DefaultDiffuse` for a nil material -/
 def matName : Option String → String
   | none => "DefaultDiffuse"
-  | some n => n.replace " " ""
+  | some n => String.ofList (n.toList.filter (· ≠ ' '))
 
 section writer
 variable {α : Type}
